@@ -58,6 +58,21 @@ Definition h_dfetch (h : handle) (id from until now : Z) : option fetch_res :=
   if hd_hdr_on_disk h then Some (fetch_from_archive (hd_disk h) id from until now) else None.
 Definition h_raw (h : handle) (id : Z) : option (list point) := raw_points (hd_arcs h) id.
 
+(** the clock: a [now] argument of 0 means "read the clock" ([whispertool.Now], which a caller may
+    replace); [Whisper.Fetch], [Update] and [UpdateMany] are the explicit calls with the best archive and
+    the clock *)
+Definition resolve_now (now clock : Z) : Z := if now =? 0 then clock else now.
+Definition h_fetch_clock (clock : Z) (h : handle) (id from until now : Z) : fetch_res :=
+  h_fetch h id from until (resolve_now now clock).
+Definition h_update_clock (F : fops) (clock : Z) (h : handle) (id t v now : Z) : handle * uout :=
+  h_update F h id t v (resolve_now now clock).
+Definition h_update_many_clock (F : fops) (clock : Z) (h : handle) (pts : list point) (id now : Z) : handle * uout :=
+  h_update_many F h pts id (resolve_now now clock).
+Definition w_fetch (clock : Z) (h : handle) (from until : Z) : fetch_res := h_fetch_clock clock h ArchiveIDBest from until 0.
+Definition w_update (F : fops) (clock : Z) (h : handle) (t v : Z) : handle * uout := h_update_clock F clock h ArchiveIDBest t v 0.
+Definition w_update_many (F : fops) (clock : Z) (h : handle) (pts : list point) : handle * uout :=
+  h_update_many_clock F clock h pts ArchiveIDBest 0.
+
 (** the header of an open handle, as [Whisper.Header] returns it *)
 Definition h_header (h : handle) : option header :=
   match new_header (hd_method h) (hd_xff h) (layout_ainfos (map (fun a => (a_step a, a_n a)) (hd_arcs h))) with
